@@ -110,3 +110,99 @@ Section GQProofs.
     rewrite G, Hs. ring.
   Qed.
 End GQProofs.
+
+(* ---- exactness of the low-order rules (for the model's rule, with the algebraic nodes as hypotheses) ---------------- *)
+Definition poly3 (a0 a1 a2 a3 x : Q) : Q := a0 + a1 * x + a2 * x ^ 2 + a3 * x ^ 3.
+Definition prim3 (a0 a1 a2 a3 x : Q) : Q := a0 * x + a1 * x ^ 2 / 2 + a2 * x ^ 3 / 3 + a3 * x ^ 4 / 4.
+Definition poly5 (a0 a1 a2 a3 a4 a5 x : Q) : Q := a0 + a1 * x + a2 * x ^ 2 + a3 * x ^ 3 + a4 * x ^ 4 + a5 * x ^ 5.
+Definition prim5 (a0 a1 a2 a3 a4 a5 x : Q) : Q :=
+  a0 * x + a1 * x ^ 2 / 2 + a2 * x ^ 3 / 3 + a3 * x ^ 4 / 4 + a4 * x ^ 5 / 5 + a5 * x ^ 6 / 6.
+
+(* 2-point rule with nodes -s, +s and weights 1, 1: the defect on a cubic is an explicit multiple of (s^2 - 1/3),
+   for ANY s (in particular for the double nodes of the code, whose s^2 - 1/3 is of the order 2^-54) *)
+Lemma rule2_defect roots weights ib s a0 a1 a2 a3 a b :
+  slice roots ib 2 = [- s; s] -> slice weights ib 2 = [1; 1] ->
+  rule roots weights ib 2 (poly3 a0 a1 a2 a3) ((1 # 2) * (a + b)) ((1 # 2) * (b - a)) ==
+  prim3 a0 a1 a2 a3 b - prim3 a0 a1 a2 a3 a
+  + (b - a) * ((1 # 2) * (b - a)) ^ 2 * (a2 + 3 * a3 * ((1 # 2) * (a + b))) * (s * s - (1 # 3)).
+Proof.
+  intros Hr Hw. rewrite rule_sum. unfold nodes. rewrite Hr, Hw. cbn [combine map Qsum fst snd].
+  unfold poly3, prim3. field.
+Qed.
+
+Lemma rule2_exact roots weights ib s a0 a1 a2 a3 a b :
+  slice roots ib 2 = [- s; s] -> slice weights ib 2 = [1; 1] -> s * s == 1 # 3 ->
+  rule roots weights ib 2 (poly3 a0 a1 a2 a3) ((1 # 2) * (a + b)) ((1 # 2) * (b - a)) ==
+  prim3 a0 a1 a2 a3 b - prim3 a0 a1 a2 a3 a.
+Proof. intros Hr Hw Hs. rewrite (rule2_defect roots weights ib s) by assumption. rewrite Hs. ring. Qed.
+
+(* 3-point rule, nodes -s, 0, +s with s^2 = 3/5 and weights 5/9, 8/9, 5/9: exact for every polynomial of degree <= 5 *)
+Lemma rule3_exact roots weights ib s a0 a1 a2 a3 a4 a5 a b :
+  slice roots ib 3 = [- s; 0; s] -> slice weights ib 3 = [5 # 9; 8 # 9; 5 # 9] -> s * s == 3 # 5 ->
+  rule roots weights ib 3 (poly5 a0 a1 a2 a3 a4 a5) ((1 # 2) * (a + b)) ((1 # 2) * (b - a)) ==
+  prim5 a0 a1 a2 a3 a4 a5 b - prim5 a0 a1 a2 a3 a4 a5 a.
+Proof.
+  intros Hr Hw Hs. rewrite rule_sum. unfold nodes. rewrite Hr, Hw. cbn [combine map Qsum fst snd].
+  set (c := (1 # 2) * (a + b)). set (d := (1 # 2) * (b - a)).
+  (* the sum is a polynomial in c, d and t = s*s only: odd powers of s cancel *)
+  assert (E : (5 # 9) * poly5 a0 a1 a2 a3 a4 a5 (c + d * - s) + ((8 # 9) * poly5 a0 a1 a2 a3 a4 a5 (c + d * 0)
+              + ((5 # 9) * poly5 a0 a1 a2 a3 a4 a5 (c + d * s) + 0))
+              == 2 * (a0 + a1 * c + a2 * c ^ 2 + a3 * c ^ 3 + a4 * c ^ 4 + a5 * c ^ 5)
+                 + (10 # 9) * d ^ 2 * (s * s) * (a2 + 3 * a3 * c + 6 * a4 * c ^ 2 + 10 * a5 * c ^ 3)
+                 + (10 # 9) * d ^ 4 * ((s * s) * (s * s)) * (a4 + 5 * a5 * c)).
+  { unfold poly5. ring. }
+  rewrite E, Hs. unfold prim5, c, d. field.
+Qed.
+
+Lemma rule_ext roots weights ib order f g c d :
+  (forall x, f x == g x) -> rule roots weights ib order f c d == rule roots weights ib order g c d.
+Proof.
+  intro H. rewrite !rule_sum. generalize (nodes roots weights ib order) as l. intro l.
+  assert (G : Qsum (map (fun rw : Q * Q => snd rw * f (c + d * fst rw)) l)
+              == Qsum (map (fun rw : Q * Q => snd rw * g (c + d * fst rw)) l)).
+  { induction l as [|x t IH]; cbn [map Qsum]; [reflexivity|]. rewrite IH, H. reflexivity. }
+  rewrite G. reflexivity.
+Qed.
+
+Lemma rule_monotone roots weights ib order f g c d :
+  (forall w, In w weights -> 0 <= w) -> (forall x, f x <= g x) -> 0 <= d ->
+  rule roots weights ib order f c d <= rule roots weights ib order g c d.
+Proof.
+  intros Hw H Hd.
+  assert (E : rule roots weights ib order g c d ==
+              rule roots weights ib order f c d + rule roots weights ib order (fun x => 1 * g x + (-(1)) * f x) c d).
+  { rewrite rule_linear. ring. }
+  rewrite E.
+  assert (0 <= rule roots weights ib order (fun x => 1 * g x + (-(1)) * f x) c d).
+  { apply rule_nonneg; [exact Hw| |exact Hd]. intro x. specialize (H x). lra. }
+  lra.
+Qed.
+
+(* the adaptive integrator restricted to the orders 2 and 3 is exact on every cubic, whatever the tolerance *)
+Lemma gq23_exact_cubic s2 s3 rtol a0 a1 a2 a3 a b :
+  s2 * s2 == 1 # 3 -> s3 * s3 == 3 # 5 ->
+  gq_evaluate [- s2; s2; - s3; 0; s3] [1; 1; 5 # 9; 8 # 9; 5 # 9] 2 3 rtol (poly3 a0 a1 a2 a3) a b ==
+  prim3 a0 a1 a2 a3 b - prim3 a0 a1 a2 a3 a.
+Proof.
+  intros H2 H3. unfold gq_evaluate.
+  destruct (gq_loop_spec [- s2; s2; - s3; 0; s3] [1; 1; 5 # 9; 8 # 9; 5 # 9] (S 3 - 2) 2 0%nat None (poly3 a0 a1 a2 a3)
+                         ((1 # 2) * (a + b)) ((1 # 2) * (b - a)) rtol) as [j [Hj ->]]; [cbn; lia|].
+  assert (j = 0 \/ j = 1)%nat as [-> | ->] by (cbn in Hj; lia).
+  - cbn [ib_at Nat.add]. apply (rule2_exact _ _ 0%nat s2); [reflexivity|reflexivity|exact H2].
+  - cbn [ib_at Nat.add].
+    rewrite (rule_ext _ _ 2%nat 3%nat (poly3 a0 a1 a2 a3) (poly5 a0 a1 a2 a3 0 0)) by (intro x; unfold poly3, poly5; ring).
+    rewrite (rule3_exact _ _ 2%nat s3) by (try reflexivity; exact H3). unfold prim5, prim3. field.
+Qed.
+
+(* enclosure: a function lying between two cubics is integrated by the 2-point rule to a value between their integrals *)
+Lemma rule2_envelope roots weights ib s f l0 l1 l2 l3 h0 h1 h2 h3 a b :
+  slice roots ib 2 = [- s; s] -> slice weights ib 2 = [1; 1] -> s * s == 1 # 3 ->
+  (forall w, In w weights -> 0 <= w) -> a <= b ->
+  (forall x, poly3 l0 l1 l2 l3 x <= f x) -> (forall x, f x <= poly3 h0 h1 h2 h3 x) ->
+  prim3 l0 l1 l2 l3 b - prim3 l0 l1 l2 l3 a <= rule roots weights ib 2 f ((1 # 2) * (a + b)) ((1 # 2) * (b - a)) /\
+  rule roots weights ib 2 f ((1 # 2) * (a + b)) ((1 # 2) * (b - a)) <= prim3 h0 h1 h2 h3 b - prim3 h0 h1 h2 h3 a.
+Proof.
+  intros Hr Hw Hs Hpos Hab Hlo Hhi. assert (Hd : 0 <= (1 # 2) * (b - a)) by lra. split.
+  - rewrite <- (rule2_exact roots weights ib s l0 l1 l2 l3 a b Hr Hw Hs). apply rule_monotone; assumption.
+  - rewrite <- (rule2_exact roots weights ib s h0 h1 h2 h3 a b Hr Hw Hs). apply rule_monotone; assumption.
+Qed.
